@@ -124,7 +124,7 @@ func runT(r *Run, s *TSpec) error {
 	replayDir := filepath.Join(r.Root, "replays", s.ID)
 	replayOnly := r.Opt.Replay != ""
 	if replayOnly {
-		replayDir = r.Opt.Replay
+		replayDir, _ = filepath.Abs(r.Opt.Replay)
 		shards = 1
 	}
 	tmp := filepath.Join(r.Work, "ttmp")
